@@ -387,6 +387,15 @@ def parse_logfmt_line(line):
                                               _canon_transport(kv.get('transport')), kv.get('port_src') or '-', kv.get('port_dst') or '-')
 
 
+TS_CONSOLE = re.compile(r'^\d+\.\d+\t')
+TS_LOGFMT = re.compile(r'^ts=\d+\.\d+ ')
+
+
+def strip_ts(line, logger):
+    """remove the wall-clock prefix of a logger line"""
+    return (TS_CONSOLE if logger == 'console' else TS_LOGFMT).sub('', line, count=1)
+
+
 def parse_log_line(line, logger):
     return parse_console_line(line) if logger == 'console' else parse_logfmt_line(line)
 
